@@ -252,8 +252,23 @@ def gen_ibi(rng):
         if rng.random() < 0.3:
             for j in range(n - rng.randint(1, max(1, n // 6)), n):
                 arr[j] = 0.0
-    stgt = [fmt(g) for g in tgt]
-    scur = stgt[:] if mode == "identical" else [fmt(g) for g in cur]
+    # undefined entries written as nan / -nan (what csg_stat and other tools
+    # print for 0/0): not positive, hence "elsewhere" in the statement
+    with_nan = rng.random() < 0.3
+    if with_nan:
+        for arr in ((tgt, cur) if mode != "identical" else (tgt,)):
+            if rng.random() < 0.7:
+                for _ in range(rng.randint(1, 2)):
+                    k0 = rng.randrange(n)
+                    for j in range(k0, min(n, k0 + rng.randint(1, 2))):
+                        arr[j] = float("nan")
+
+    def ftxt(g):
+        if math.isnan(g):
+            return rng.choice(["nan", "-nan", "nan"])
+        return fmt(g)
+    stgt = [ftxt(g) for g in tgt]
+    scur = stgt[:] if mode == "identical" else [ftxt(g) for g in cur]
     pot = smooth_values(rng, xv)
     pflags = ["i"] * n
     with_u = rng.random() < 0.25
@@ -267,7 +282,8 @@ def gen_ibi(rng):
     inputs = {"tgt.dist": table_text(xs, stgt, rflags),
               "cur.dist": table_text(xs, scur, rflags),
               "cur.pot": table_text(xs, [fmt(p) for p in pot], pflags)}
-    info = {"kBT": kbt, "n": n, "mode": mode, "pot_flags_with_u": with_u}
+    info = {"kBT": kbt, "n": n, "mode": mode, "pot_flags_with_u": with_u,
+            "with_nan_entries": with_nan}
 
     def judge(case, run):
         v = Verdict()
@@ -282,7 +298,7 @@ def gen_ibi(rng):
         def state(i):          # 'valid' / 'invalid' / 'dontcare'
             st = "valid"
             for val in (T[i], C[i]):
-                if val <= 0.0:
+                if math.isnan(val) or val <= 0.0:
                     return "invalid" if pflags[i] != "u" else "dontcare"
                 if val <= TH * (1 + 1e-6):
                     st = "dontcare"
